@@ -536,6 +536,57 @@ def rule_v(F):
     return sc.rule_innermost(F, "C01.V", "compiler::Compiler::resolve_var", "locals", "C01/V/resolve_var")
 
 
+def rule_d(F):
+    """C01.D: the body of a loop is a statement. Cards used as statements leave their values on the stack (a call whose
+    result nobody uses); inside a loop body that happens once per iteration, so the Repeat / ForEach / While arms must emit,
+    after the body and before the body's scope ends, the instruction that drops everything above the locals (ClearStack
+    with the number of live locals). Without it `repeat n { f() }` overflows the value stack for large n, and the body's
+    locals are not on top when the scope ends (CloseUpvalue / Pop then hit a leftover value instead of the local)."""
+    from rules.c10 import arm_labels
+    res = []
+    f = F.fn("compiler::Compiler::process_card")
+    labels = arm_labels(f)
+
+    def emits_clear(y, depth=0):
+        names = hir_callee(y)
+        if any(n.endswith("Compiler::push_instruction") for n in names):
+            return any(z.get("k") == "path" and short(z["path"]["res"].get("path", "")).endswith("Instruction::ClearStack") for a in y["args"] for z in hir_walk(a))
+        for n in names:
+            g = F.fn(n, required=False)
+            if g is not None and g.hir and n.startswith("compiler::Compiler::") and depth < 2 and n not in ("compiler::Compiler::process_card", "compiler::Compiler::compile_subexpr"):
+                if any(emits_clear(z, depth + 1) for z in hir_walk(g.hir["body"]) if z.get("k") in ("mcall", "call")):
+                    return True
+        return False
+    for lab in ("Repeat", "ForEach", "While"):
+        seq = [x for x in hir_walk(f.hir["body"]) if labels.get(id(x)) == lab and x.get("k") in ("mcall", "call")]
+        # the body: process_card under push_subindex(1); take the last process_card before a scope_end that follows a push_subindex
+        body_i = None
+        pushed = False
+        for i, x in enumerate(seq):
+            names = hir_callee(x)
+            if any(n.endswith("CardIndex::push_subindex") for n in names):
+                a = hu.strip_all(x["args"][0]) if x.get("args") else None
+                pushed = a is not None and a.get("k") == "lit" and a["lit"].get("v") == 1
+            elif any(n.endswith("CardIndex::pop_subindex") for n in names):
+                pushed = False
+            elif pushed and any(n.endswith("Compiler::process_card") for n in names):
+                body_i = i
+        key = "C01/D/process_card[%s]/statement-values-dropped-every-iteration" % lab
+        if body_i is None:
+            res.append(undecided("C01.D", key, f.loc(), "the body of the %s loop was not found (process_card under push_subindex(1))" % lab))
+            continue
+        end_i = next((i for i in range(body_i + 1, len(seq)) if any(n.endswith("Compiler::scope_end") for n in hir_callee(seq[i]))), None)
+        between = seq[body_i + 1:end_i] if end_i is not None else seq[body_i + 1:]
+        if any(emits_clear(y) for y in between):
+            res.append(ok("C01.D", key, f.loc(seq[body_i].get("ln")), "ClearStack(number of locals) is emitted after the body, before its scope ends"))
+        else:
+            res.append(bad("C01.D", key, f.loc(seq[body_i].get("ln")),
+                           "the %s arm compiles the loop body and ends its scope without dropping the values the body's statements left on "
+                           "the stack: they pile up once per iteration (`repeat 5000 { f() }` ends in Stackoverflow) and a captured local of "
+                           "the body is not on top when CloseUpvalue runs, so closures of different iterations share one variable" % lab))
+    return res
+
+
 def rule_g(F):
     """C01.G: reading a global that was never set has one outcome. Setting a global grows the table of globals up to its id
     (`resize`), which creates entries for ids that were never set; if those fillers are ordinary values (the table is a
@@ -587,6 +638,7 @@ def _c19_rule_x(F):
 
 
 RULES = [
+    Rule("C01.D", rule_d, 3, "loop bodies drop the values their statements leave behind, every iteration"),
     Rule("C01.G", rule_g, 1, "an unset global is distinguishable from every value a script can store"),
     Rule("C01.R", shared(_c19_rule_c, "C19.C", "C01.R"), 2, "Less / LessOrEq on numbers follow the payloads' own order (shared with C19.C)"),
     Rule("C01.Q", shared(_c19_rule_x, "C19.X", "C01.Q"), 2, "Equals / NotEquals on numbers is exact equality (shared with C19.X)"),
